@@ -17,6 +17,25 @@ add("C03", "Bounded symbolic model checking: one symbolic step of the real env.s
     "and env.reset with a symbolic key, for all 23 envs at small sizes; unsat = protocol holds for every state/action/draw at those sizes.",
     "jaxpr->SMT symbolic execution of env.step/env.reset, z3 (QF_BV+FP), counterexample replay on the real jitted code", "DESIGN.md 3/C03")
 
+T1 = "jaxpr->SMT symbolic execution of the real env.step/env.reset (z3, QF_BV+FP), inductive one-step from every valid state (bounded unrolling for BMC envs), "
+add("C01", "IR output types vs spec tree (all inputs) + bounded symbolic model checking of value bounds on reset and on one inductive step incl. terminal steps; invariant re-established.",
+    T1 + "spec-bound oracle; counterexample replay on the real jitted code", "DESIGN.md 3/C01")
+add("C04", "Bounded symbolic model checking: mask returned with S' (and with reset) equals an independent rule for EVERY action; environment's reaction agrees.",
+    T1 + "independent legality oracle for all actions; replay on real code", "DESIGN.md 3/C04")
+add("C05", "Bounded symbolic model checking with a symbolic illegal action: documented effect only.", T1 + "documented-effect oracle; replay", "DESIGN.md 3/C05")
+add("C06", "Inductive constraint preservation under rule-legal and under emitted-mask play (2 steps); k-step BMC for BinPack/JobShop/MMST/MultiCVRP.",
+    T1 + "constraint oracle from raw arrays; replay", "DESIGN.md 3/C06")
+add("C07", "Inductive physical-consistency invariant (reset + every non-terminal step under any action) and frame+delta conservation laws.",
+    T1 + "invariant split per conjunct; replay", "DESIGN.md 3/C07")
+add("C08", "Telescoping one-step reward identity against the documented objective recomputed from raw arrays; dense/sparse variants.",
+    T1 + "objective oracle; replay", "DESIGN.md 3/C08")
+add("C09", "One symbolic step vs an independent symbolic reference model of the rules: successor fields, reward, termination.",
+    T1 + "equivalence against a plain-Python symbolic reference model; replay", "DESIGN.md 3/C09")
+add("C11", "Per enumerated time_limit: never later / never earlier obligations on one inductive step; ranking function for structural horizons.",
+    T1 + "per-T env rebuild; replay", "DESIGN.md 3/C11")
+add("C12", "Observation returned with S' equals an independent observer of S' for every state/action at the listed sizes.",
+    T1 + "observer oracle; replay", "DESIGN.md 3/C12")
+
 ALL = [f"C{i:02d}" for i in range(1, 20)]
 PENDING = "check under construction in this round; not claimed yet"
 
